@@ -4,8 +4,10 @@ mod consts;
 mod registry;
 mod defrag;
 mod fuzz;
+mod headers;
 mod hello;
 mod observe;
+mod pipeline;
 mod project;
 #[cfg(feature = "serialize")]
 mod ser;
@@ -94,6 +96,8 @@ fn main() {
         #[cfg(feature = "serialize")]
         "ser" => ser::cmd_ser(&args[2..]),
         "sweep-ext" => sweeps::cmd_ext(&args[2..]),
+        "sweep-headers" => headers::cmd_headers(&args[2..]),
+        "pipeline" => pipeline::cmd_pipeline(&args[2..]),
         "sweep-sites" => sweeps::cmd_sites(&args[2..]),
         "states-sweep" => states::cmd_sweep(&args[2..]),
         "states-run" => states::cmd_run(&args[2..]),
